@@ -176,6 +176,15 @@ def gen_cases(rng: Rng, tier):
             sc = Fraction(2) ** rng.choice([0, 0, -20, 20])
             yield dict(kind=method, t=Svec(t), X=Smat([[x * sc for x in r] for r in X]), sel=rng.choice([["int", 2], ["all"]]),
                        ck=f"grid:{label}", scale=rs(sc))
+    # spectra with a long weak tail (every run, covariance route, all components kept): directions of amplitude 8^-k
+    # (eigenvalue ratios 64^-k, i.e. down to ~1e-11 of the largest); the Mercer clause is judged per component
+    for rep in range(4 if big else 2):
+        n, m = 9, rng.randint(7, 9)
+        t = rng.grid(m, lo=rng.choice([0, -1]), scale=1, uniform=bool(rep % 2))
+        shapes, _ = curves(rng, 6, t, "rough")
+        X = [[10 + sum(Fraction(1, 8 ** k) * shapes[k][j] * ((-1) ** (i * (k + 1))) * (i + 1 + k) for k in range(6))
+              for j in range(m)] for i in range(n)]
+        yield dict(kind="cov", t=Svec(t), X=Smat(X), sel=["all"], ck="weak-tail", scale="1")
     # data objects WITH A HISTORY (every run, both routes): the object handed to fit has been used before — a smoothed mean,
     # a covariance, a Gram matrix, center(), smooth(), an earlier fit with method_smoothing, new values assigned after a
     # mean call; the clauses are judged against the covariance / Gram matrix of the plain values
@@ -580,6 +589,20 @@ def _oracle_stage(case, entry, label, ts, Xs, impl):
             D = (D + D.T) / 2
             if np.linalg.eigvalsh(D).min() < -1e-8 * csc:
                 bad("mercer_truncated", f"C − Mercer sum of the {K} kept components is not PSD (min eigenvalue {np.linalg.eigvalsh(D).min():.3g})")
+        # Mercer identity component by component (sensitive to weak components that are tiny relative to ‖C‖): for every
+        # retained eigenfunction the quadratic form φ_kᵀ W · W φ_k of the reported covariance must be that of the surface
+        # (= λ_k); tolerance 1e-3 relative + the absolute accuracy LAPACK has on small eigenvalues (1e-11 λ_max)
+        if K == m and np.all(np.isfinite(Phi)):
+            lmx = max(np.abs(vals).max(), 1e-300)
+            for k in range(K):
+                v = w * Phi[k]
+                nk = Phi[k] @ v
+                if not (abs(nk - 1.0) < 1e-6):
+                    continue   # not a unit eigenfunction (repeated eigenvalue: the open finding)
+                qC, qM = v @ C @ v, v @ cov @ v
+                if abs(qM - qC) > 1e-3 * abs(qC) + 1e-11 * lmx:
+                    bad("mercer_component", f"all {m} components kept: along eigenfunction {k} (eigenvalue {vals[k]!r} = {vals[k] / lmx:.2e} of the largest) the reported covariance has variance {qM!r}, the covariance surface {qC!r}")
+                    break
         # the reported covariance is the Mercer sum of the reported pairs
         mer = (Phi.T * vals) @ Phi
         if np.all(np.isfinite(mer)) and np.abs(cov - mer).max() > 1e-9 * max(np.abs(mer).max(), csc):
